@@ -318,6 +318,25 @@ func runC12(c *Ctx, r *Report, tier string) {
 	}
 	r.Check(skipOK, "OMIT", c.fname(wg), "defaults are omitted only when IniIncludeDefaults is unset", c.pos(wg.Pos()), "the omission test is REQ(options & IniIncludeDefaults == 0)", "the omission of default-valued options is not tied to IniIncludeDefaults")
 
+	// the kind that decides quoting is the kind of what is written: the value's own kind, or the ELEMENT kind of
+	// a slice or map (never the key kind)
+	for _, in := range c.instrs(wg, c.isCallTo("writeOption")) {
+		t := c.term(in.(*ssa.Call).Call.Args[2])
+		ok := strings.HasPrefix(t, "invoke:Type.Kind(call:(reflect.Value).Type(Option.value(") || strings.HasPrefix(t, "invoke:Type.Kind(invoke:Type.Elem(call:(reflect.Value).Type(Option.value(")
+		r.Check(ok && !strings.Contains(t, "Type.Key("), "QUOTE", c.fname(wg), "quoting rule fed with the kind of the written value", c.ipos(in), "Kind of the value, or of the slice/map element", "the quoting rule is fed with "+trunc(t, 120))
+	}
+	// a subcommand's section is named by the full dotted path from the top
+	if wc := c.Fn("writeCommandIni"); wc != nil {
+		for _, in := range c.instrs(wc, c.isCallTo("writeCommandIni")) {
+			okP := true
+			for _, o := range c.originsOf(in.(*ssa.Call).Call.Args[1], in) {
+				if !(strings.HasPrefix(o.Term, "Command.Name(idx(Command.commands(P0), ") || strings.HasPrefix(o.Term, `((P1 + ".") + Command.Name(idx(Command.commands(P0), `)) {
+					okP = false
+				}
+			}
+			r.Check(okP, "NAMES", c.fname(wc), "section name is the dotted path of command names", c.ipos(in), "namespace + \".\" + c.Name (or c.Name at the top)", "the section of a nested command is named "+trunc(c.term(in.(*ssa.Call).Call.Args[1]), 140)+": the reader cannot resolve it below the second level")
+		}
+	}
 	// ---- NAMES
 	r.Rule("RESOLVE", "the reader resolves a written name to the option it was written for: optionByName priorities (shared with C13)", 4)
 	if obn := c.mustFn(r, "(*Group).optionByName"); obn != nil {
